@@ -35,7 +35,7 @@ func Harness_C17_ResolveLongForm() {
 	}
 	c, suffix, state := c17Create("c")
 	did := ns + ":" + suffix + ":" + state
-	tamper := verifrt.Choose("tamper", 8)
+	tamper := verifrt.Choose("tamper", 10)
 	switch tamper {
 	case 1: // another method whose name has the handler's as a prefix
 		did = ns + "x:" + suffix + ":" + state
@@ -55,6 +55,10 @@ func Harness_C17_ResolveLongForm() {
 		did = ns + ":" + suffix + ":" + otherState
 	case 7: // namespace missing
 		did = suffix + ":" + state
+	case 8: // characters in front of the suffix
+		did = ns + ":" + "x" + verifrt.AnyAtom("junk") + suffix + ":" + state
+	case 9: // characters behind the suffix
+		did = ns + ":" + suffix + "x" + ":" + state
 	}
 	res, err := h.ResolveDocument(did)
 	if tamper != 0 {
